@@ -23,6 +23,7 @@ def child_env(scratch: str, hashseed: str = '0') -> dict:
         'XDG_DATA_HOME': os.path.join(scratch, 'xdg'),
         'NUMBA_CACHE_DIR': os.path.join(scratch, 'numba'),
         'NUMBA_NUM_THREADS': '1',
+        'NUMBA_THREADING_LAYER': 'workqueue',   # the OpenMP layer refuses to fork() once it has been used
         'OMP_NUM_THREADS': '1',
         'OPENBLAS_NUM_THREADS': '1',
         'MKL_NUM_THREADS': '1',
